@@ -39,6 +39,7 @@ type reqSpec struct {
 	Cancel   bool   // a canceller actor cancels this client's context at some point
 	NoDedup  bool   // DisableInboundRequestDeduplication (drives the subgraph-level single flight)
 	BadWrite bool   // this client's response writer fails (broken pipe)
+	DS       string // data source ID of the fetch ("" = sg1); every data source has the same display NAME
 }
 
 type scenario struct {
@@ -69,9 +70,31 @@ type fakeDS struct {
 	s      *sched.Sched
 	status map[string]int
 	fail   map[string]bool
-	mu    sync.Mutex
-	loads map[string]int
-	log   []string
+	mu     sync.Mutex
+	loads  map[string]int
+	log    []string
+}
+
+func dsID(q reqSpec) string {
+	if q.DS != "" {
+		return q.DS
+	}
+	return "sg1"
+}
+
+// dsView is one data source (identified by its ID) of the shared fake upstream:
+// the answer depends on the ID, so a response shared across data sources shows.
+type dsView struct {
+	d  *fakeDS
+	id string
+}
+
+func (v *dsView) Load(ctx context.Context, headers http.Header, input []byte) ([]byte, error) {
+	return v.d.load(ctx, v.id, headers, input)
+}
+
+func (v *dsView) LoadWithFiles(ctx context.Context, headers http.Header, input []byte, files []*httpclient.FileUpload) ([]byte, error) {
+	return v.d.load(ctx, v.id, headers, input)
 }
 
 func fetchInput(q reqSpec) string {
@@ -82,8 +105,15 @@ func fetchInput(q reqSpec) string {
 }
 
 func (d *fakeDS) Load(ctx context.Context, headers http.Header, input []byte) ([]byte, error) {
+	return d.load(ctx, "sg1", headers, input)
+}
+
+func (d *fakeDS) load(ctx context.Context, id string, headers http.Header, input []byte) ([]byte, error) {
 	in := string(input)
 	key := in + "|" + headers.Get("X-H")
+	if id != "sg1" {
+		key = id + ":" + key
+	}
 	d.mu.Lock()
 	d.loads[key]++
 	d.mu.Unlock()
@@ -128,7 +158,7 @@ func (w *clientWriter) Write(p []byte) (int, error) {
 	return w.buf.Write(p)
 }
 
-func planFor(q reqSpec, ds resolve.DataSource) *resolve.GraphQLResponse {
+func planFor(q reqSpec, ds *fakeDS) *resolve.GraphQLResponse {
 	opType := ast.OperationTypeQuery
 	if q.Mutation {
 		opType = ast.OperationTypeMutation
@@ -142,11 +172,11 @@ func planFor(q reqSpec, ds resolve.DataSource) *resolve.GraphQLResponse {
 		Info: &resolve.GraphQLResponseInfo{OperationType: opType},
 		Fetches: resolve.Single(&resolve.SingleFetch{
 			FetchConfiguration: resolve.FetchConfiguration{
-				DataSource:     ds,
+				DataSource:     &dsView{d: ds, id: dsID(q)},
 				PostProcessing: resolve.PostProcessingConfiguration{SelectResponseDataPath: []string{"data"}, SelectResponseErrorsPath: []string{"errors"}},
 			},
 			InputTemplate: resolve.InputTemplate{Segments: []resolve.TemplateSegment{{SegmentType: resolve.StaticSegmentType, Data: []byte(in)}}},
-			Info:          &resolve.FetchInfo{DataSourceID: "sg1", DataSourceName: "sg1", OperationType: fetchType, RootFields: []resolve.GraphCoordinate{{TypeName: "Query", FieldName: "value"}}},
+			Info:          &resolve.FetchInfo{DataSourceID: dsID(q), DataSourceName: "accounts", OperationType: fetchType, RootFields: []resolve.GraphCoordinate{{TypeName: "Query", FieldName: "value"}}},
 		}),
 		Data: &resolve.Object{Fields: []*resolve.Field{{Name: []byte("value"), Value: &resolve.String{Path: []string{"value"}, Nullable: true}}}},
 	}
@@ -204,6 +234,7 @@ func scenarios(thorough bool) []scenario {
 		{Name: "L4-subgraph-leader-fails", Reqs: []reqSpec{{Name: "A", Op: "q1", Vars: "v1", Hdr: "h1", SubFetch: "F1", NoDedup: true}, {Name: "B", Op: "q2", Vars: "v1", Hdr: "h1", SubFetch: "F1", NoDedup: true}}, FailKeys: map[string]bool{"F1": true}},
 		{Name: "I7-one-client-writer-broken", Reqs: []reqSpec{{Name: "A", Op: "q1", Vars: "v1", Hdr: "h1", BadWrite: true}, a("B", "q1", "v1", "h1")}},
 		{Name: "L7-subgraph-answers-503", Reqs: []reqSpec{{Name: "A", Op: "q1", Vars: "v1", Hdr: "h1", SubFetch: "F1", NoDedup: true}, {Name: "B", Op: "q2", Vars: "v1", Hdr: "h1", SubFetch: "F1", NoDedup: true}}, Status: map[string]int{"F1": 503}},
+		{Name: "L8-same-input-same-name-different-data-source", Reqs: []reqSpec{{Name: "A", Op: "q1", Vars: "v1", Hdr: "h1", SubFetch: "F1", NoDedup: true}, {Name: "B", Op: "q2", Vars: "v1", Hdr: "h1", SubFetch: "F1", NoDedup: true, DS: "sg2"}}},
 		{Name: "L5-subgraph-participant-cancels", Reqs: []reqSpec{{Name: "A", Op: "q1", Vars: "v1", Hdr: "h1", SubFetch: "F1", NoDedup: true, Cancel: true}, {Name: "B", Op: "q2", Vars: "v1", Hdr: "h1", SubFetch: "F1", NoDedup: true}}},
 	}
 	if thorough {
